@@ -173,8 +173,17 @@ pub async fn read_response_frame(
     // TODO: Guard from frames that are too large
     let length = buf.get_u32() as usize;
 
-    let mut raw_body = Vec::with_capacity(length).limit(length);
+    // The announced length is not trusted with an up-front allocation (it can be up to 4 GiB
+    // for a 9-byte header): small bodies get their exact capacity at once, larger ones grow
+    // geometrically as the bytes actually arrive, never beyond the announced length.
+    const INITIAL_BODY_CAPACITY_LIMIT: usize = 32 * 1024;
+    let mut raw_body = Vec::with_capacity(length.min(INITIAL_BODY_CAPACITY_LIMIT)).limit(length);
     while raw_body.has_remaining_mut() {
+        let body_so_far = raw_body.get_mut();
+        if body_so_far.len() == body_so_far.capacity() {
+            let remaining = length - body_so_far.len();
+            body_so_far.reserve_exact(remaining.min(body_so_far.capacity()));
+        }
         let n = reader.read_buf(&mut raw_body).await.map_err(|err| {
             FrameHeaderParseError::BodyChunkIoError(raw_body.remaining_mut(), err)
         })?;
